@@ -1,4 +1,5 @@
 import NasdaqModel.Lemmas.LoginTraceT
+import NasdaqModel.Lemmas.MonitorLemmas
 /-
 Login at trace level (C11), part 3: the invariant of one login caller.
 
@@ -130,11 +131,28 @@ theorem contOk_of_user {c : Cont} {u : Nat} (h : contOk (.U u) c) : ∃ r, c = .
   | _ => simp [contOk] at h
 
 /-- the close body run by task `t` with a continuation that, if it belongs to `u`, is a refusal (or the caller's cancellation) -/
+structure CloseFacts (ab : Bool) (t : Tid) (c : Cont) (s s' : St) : Prop where
+  other : ∀ y, y ≠ t → (∀ j, stageOf y ≠ some j) → s'.status y = s.status y ∧ s'.prog y = s.prog y
+  nabs : ∀ y, s'.status y = .absent ↔ s.status y = .absent
+  sprog : s'.prog t = s.prog t ∨ s'.prog t = .inClose ∨ t = .R ∨ t = .D
+  tr : ∃ l, s'.trace = s.trace ++ l ∧
+    ∀ o ∈ l, closeObs c o ∨ (ab = true ∧ ∃ u r, c = .userTail u r ∧ o = .ret u .cancelled)
+
+theorem CE.facts {ab : Bool} {t : Tid} {c : Cont} {s s' : St} (e : CE ab t c s s') : CloseFacts ab t c s s' :=
+  ⟨e.other, e.nabs, e.sprog, e.tr⟩
+
+/-- the specification of `close()` seen from a state `s0` that agrees with `s` on statuses, programs and trace -/
+theorem EnterSpec.facts {t : Tid} {c : Cont} {s0 s s' : St} (e : EnterSpec t c s s') (h1 : s0.status = s.status)
+    (h2 : s0.prog = s.prog) (h3 : s0.trace = s.trace) : CloseFacts false t c s0 s' := by
+  obtain ⟨l, el, ol⟩ := e.tr
+  exact ⟨by rw [h1, h2]; exact e.other, by rw [h1]; exact e.nabs, by rw [h2]; exact e.sprog,
+    ⟨l, by rw [h3]; exact el, fun o ho => Or.inl (ol o ho)⟩⟩
+
 theorem InvU.close {s s' : St} {ab : Bool} {t : Tid} {c : Cont} (i : InvU cfg u can lg sp sp2 s)
     (hcok : contOk t c) (hc : ∀ r, c = .userTail u r → r = .refused ∨ (r = .cancelled ∧ can))
     (hst : alive (s.status t) = true) (hpt : t = .U u → s.prog t ≠ .recvWait u)
     (hab : ab = true → s.status t = .cancelled)
-    (e : CE ab t c s s') (f : Fin t s') (hcl : s'.closed = true) (hq : s'.qClosed = true)
+    (e : CloseFacts ab t c s s') (f : Fin t s') (hcl : s'.closed = true) (hq : s'.qClosed = true)
     (hstage : s'.cstage = s.cstage ∨ contOf s'.cstage = some c ∨ contOf s'.cstage = none) :
     InvU cfg u can lg sp sp2 s' := by
   obtain ⟨l, el, ol⟩ := e.tr
@@ -223,23 +241,15 @@ theorem InvU.close {s s' : St} {ab : Bool} {t : Tid} {c : Cont} (i : InvU cfg u 
       · rw [← htu] at f; simp at f
     · rw [(hother htu).1, (hother htu).2]; exact b
 
-/-- `close()` called by the running task `t` -/
-theorem InvU.enter {s s' : St} {t : Tid} {c : Cont} (i : InvU cfg u can lg sp sp2 s)
+/-- `close()` called by the running task `t` in state `s`; the invariant is given for a state `s0` that agrees with `s` on
+    statuses, programs, trace and close stage (the pending-receive slot may differ: `login()` has just emptied it) -/
+theorem InvU.enter {s0 s s' : St} {t : Tid} {c : Cont} (i : InvU cfg u can lg sp sp2 s0)
+    (h1 : s0.status = s.status) (h2 : s0.prog = s.prog) (h3 : s0.trace = s.trace) (h4 : s0.cstage = s.cstage)
     (hcok : contOk t c) (hc : ∀ r, c = .userTail u r → r = .refused ∨ (r = .cancelled ∧ can))
     (hst : s.status t = .ready) (hpt : t = .U u → s.prog t ≠ .recvWait u) (e : EnterSpec t c s s') :
     InvU cfg u can lg sp sp2 s' := by
-  obtain ⟨l, el, ol⟩ := e.tr
-  -- repackage the specification as a `CE` (the flags are not read by `InvU.close`)
-  have ce : CE false t c ({ s with closed := s'.closed, qClosed := s'.qClosed } : St) s' :=
-    ⟨e.vres, e.busy, e.ctask, e.queue, rfl, rfl, e.disp, e.other, e.nabs, e.sprog, ⟨l, el, fun o ho => Or.inl (ol o ho)⟩, by
-      rcases e.stage with ⟨_, h⟩ | h | h | h
-      · exact Or.inl h
-      · exact Or.inr (Or.inl h)
-      · exact Or.inr (Or.inr (Or.inl h))
-      · exact Or.inr (Or.inr (Or.inr (Or.inl h)))⟩
-  have i1 : InvU cfg u can lg sp sp2 ({ s with closed := s'.closed, qClosed := s'.qClosed } : St) :=
-    i.ext [] (by simp) (uboring_nil u) rfl rfl rfl (fun _ => e.closed) id id (fun _ h => Or.inl h) (fun _ => e.qclosed) (fun _ _ h => h)
-  refine i1.close hcok hc (by show alive (s.status t) = true; rw [hst]; rfl) hpt (by simp) ce e.fin e.closed e.qclosed ?_
+  refine i.close hcok hc (by rw [h1, hst]; rfl) (by rw [h2]; exact hpt) (by simp) (e.facts h1 h2 h3) e.fin e.closed e.qclosed ?_
+  rw [h4]
   rcases e.stage with ⟨_, h⟩ | ⟨pc, h⟩ | ⟨k, h⟩ | h
   · exact Or.inl h
   · exact Or.inr (Or.inl (by rw [h]; rfl))
@@ -253,7 +263,7 @@ theorem InvU.ce {s s' : St} {ab : Bool} {t : Tid} {c : Cont} (i : InvU cfg u can
   have hne : s.cstage ≠ .idle := by intro h; rw [h] at hcont; simp [contOf] at hcont
   have hcl : s.closed = true := a.closed_iff.mpr hne
   have hq : s.qClosed = true := a.qclosed hne
-  refine i.close hcok (fun r hr => i.cont r (by rw [hcont, hr])) hal (fun _ => by rw [hprog]; simp) hab e f
+  refine i.close hcok (fun r hr => i.cont r (by rw [hcont, hr])) hal (fun _ => by rw [hprog]; simp) hab e.facts f
     (by rw [e.closed]; exact hcl) (by rw [e.qclosed]; exact hq) ?_
   rcases e.stage with h | ⟨pc, h⟩ | ⟨k, h⟩ | h | ⟨_, h⟩
   · exact Or.inl h
@@ -292,7 +302,8 @@ theorem tclose_not_mem_of_open {cfg : Cfg} {s : St} (a : InvA cfg s) (h : s.clos
   exact foldl_mon_tclose _ 0 hm this
 
 /-- a task other than `u` ends -/
-theorem InvU.finish {s : St} (i : InvU cfg u can lg sp sp2 s) (b : InvB s) {t : Tid} (hne : t ≠ .U u)
+theorem InvU.finish {s : St} (i : InvU cfg u can lg sp sp2 s) {t : Tid} (hne : t ≠ .U u)
+    (hw : s.status (.U u) = .waitT t → t = .V ∨ s.prog (.U u) = .inClose)
     (hV : t = .V → s.status (.U u) = .waitT .V → s.vres = none → s.qClosed = true ∨ can) :
     InvU cfg u can lg sp sp2 (s.finish t) := by
   have hun : Tid.U u ≠ t := fun e => hne e.symm
@@ -319,17 +330,21 @@ theorem InvU.finish {s : St} (i : InvU cfg u can lg sp sp2 s) (b : InvB s) {t : 
   · intro h1 h2 h3
     rw [hst] at h1
     split at h1
-    · rename_i hw
-      rcases b.waitt _ _ hw with ⟨pc, c, hb⟩ | ⟨_, _, hV'⟩
-      · have := (b.bst _ pc c hb).1
-        have h2' : s.prog (.U u) = .loginWait u := h2
-        rw [this] at h2'; simp at h2'
-      · exact hV hV' (by rw [← hV']; exact hw) h3
+    · rename_i hwt
+      rcases hw hwt with hV' | hpc
+      · exact hV hV' (by rw [← hV']; exact hwt) h3
+      · have h2' : s.prog (.U u) = .loginWait u := h2
+        rw [hpc] at h2'; simp at h2'
     · exact i.noreply h1 h2 h3
   · intro hsp
     obtain ⟨a1, a2⟩ := i.spent2 hsp
     refine ⟨fun e => a1 (absent_of_finish e), a2.imp id ?_⟩
     intro hd; rw [hst, hd]; simp
+
+theorem waits_of_invB {s : St} (b : InvB s) {x t : Tid} (h : s.status x = .waitT t) : t = .V ∨ s.prog x = .inClose := by
+  rcases b.waitt _ _ h with ⟨pc, c, hb⟩ | ⟨_, _, hV⟩
+  · exact Or.inr (b.bst _ pc c hb).1
+  · exact Or.inl hV
 
 /-- while a user other than `u` is inside a receive, `u` is not about to resume its `login()` -/
 theorem not_resuming {s : St} (w : InvW s) {a : Nat} (hra : rcving s a) (hau : a ≠ u) :
@@ -345,14 +360,14 @@ theorem InvU.other_leave {s : St} (i : InvU cfg u can lg sp sp2 s) (b : InvB s) 
   have i1 : InvU cfg u can lg sp sp2 (({ s with vres := none, rcvBusy := false, gone := g } : St).emit (.ret a x)) :=
     i.ext [.ret a x] rfl (uboring_one (ret_ne hau x)) rfl rfl rfl id id id (fun _ h => Or.inl h) id
       (fun h1 h2 _ => absurd ⟨h1, h2⟩ hnr)
-  exact i1.finish (InvB.of_bcore (s := s) rfl b) (by intro e; injection e with e; exact hau e) (by intro e; simp at e)
+  exact i1.finish (by intro e; injection e with e; exact hau e) (fun h => waits_of_invB b h) (by intro e; simp at e)
 
 /-- same, when only the busy flag is cleared (the pending slot was empty) -/
 theorem InvU.other_leave' {s : St} (i : InvU cfg u can lg sp sp2 s) (b : InvB s) {a : Nat} (hau : a ≠ u) (x : Res) :
     InvU cfg u can lg sp sp2 ((({ s with rcvBusy := false } : St).emit (.ret a x)).finish (.U a)) := by
   have i1 : InvU cfg u can lg sp sp2 (({ s with rcvBusy := false } : St).emit (.ret a x)) :=
     i.ext [.ret a x] rfl (uboring_one (ret_ne hau x)) rfl rfl rfl id id id (fun _ h => Or.inl h) id (fun _ _ h => h)
-  exact i1.finish (InvB.of_bcore (s := s) rfl b) (by intro e; injection e with e; exact hau e) (by intro e; simp at e)
+  exact i1.finish (by intro e; injection e with e; exact hau e) (fun h => waits_of_invB b h) (by intro e; simp at e)
 
 /-- `u`'s own `login()` ends with a refusal: the session is closed -/
 theorem InvU.self_refused {s s1 : St} (i : InvU cfg u can lg sp sp2 s) (b : InvB s)
@@ -470,20 +485,22 @@ theorem stepReader_U {s : St} (a : InvA cfg s) (b : InvB s) (i : InvU cfg u can 
     (hst : s.status .R = .ready) : InvU cfg u can lg sp sp2 (stepReader cfg s) := by
   unfold stepReader
   split
-  · exact i.finish b (by simp) (by simp)
+  · exact i.finish (by simp) (fun h => waits_of_invB b h) (by simp)
   · split
     · exact i
     · have p : ClosePre s .R := ClosePre.of_inv a b hst (c := .readerTail) rfl
       split
-      · rename_i n
+      · rename_i n _
         -- `queue.put`: a waiting getter is woken
-        refine InvU.ext (s := ({ s with buf := _, consumed := _, recvd := _ } : St)) (by iu i) [] ?_ (uboring_nil u) ?_ ?_ ?_ ?_ ?_ ?_ ?_ ?_ ?_
-        all_goals (unfold St.put St.wakeGetter; split <;> split <;> simp_all [St.setStatus])
+        obtain ⟨f1, f2, f3, f4, f5, f6, f7, f8⟩ := put_frame ({ s with buf := _, consumed := s.consumed ++ [.msg n], recvd := s.recvd ++ [n] } : St) n
+        refine InvU.ext (s := ({ s with buf := _, consumed := _, recvd := _ } : St)) (by iu i) [] (by rw [f1]; simp) (uboring_nil u)
+          (by rw [f2]) (f3 _ (by simp) (by simp)) (by rw [f4]) (by rw [f5]; exact id) (by rw [f3 .L (by simp) (by simp)]; exact id)
+          (by rw [f3 .M (by simp) (by simp)]; exact id) (fun _ h => Or.inl (f8 h)) (by rw [f6]; exact id) (by rw [f7]; exact fun _ _ h => h)
       · iu i
-      · exact InvU.enter (s := { s with buf := _, consumed := _ }) (by iu i) (c := .readerTail) rfl (by simp) hst (by simp)
-          (enterClose_spec (p.same rfl rfl rfl) rfl)
-      · exact InvU.enter (s := { s with buf := _, consumed := _ }) (by iu i) (c := .readerTail) rfl (by simp) hst (by simp)
-          (enterClose_spec (p.same rfl rfl rfl) rfl)
+      · exact i.enter (s := { s with buf := _, consumed := _ }) rfl rfl rfl rfl (c := .readerTail) rfl (by simp) hst (by simp)
+          (enterClose_spec (c := .readerTail) (p.same rfl rfl rfl) rfl)
+      · exact i.enter (s := { s with buf := _, consumed := _ }) rfl rfl rfl rfl (c := .readerTail) rfl (by simp) hst (by simp)
+          (enterClose_spec (c := .readerTail) (p.same rfl rfl rfl) rfl)
 
 theorem InvU.initiateClose {s : St} (i : InvU cfg u can lg sp sp2 s) : InvU cfg u can lg sp sp2 s.initiateClose := by
   unfold St.initiateClose
@@ -502,19 +519,19 @@ theorem dispHandle_U {s : St} (i : InvU cfg u can lg sp sp2 s) (p : ClosePre s .
   split
   · iu i
   · iu i
-  · exact i.enter (c := .handlerTail n) rfl (by simp) p.hst (by simp) (enterClose_spec p rfl)
+  · exact i.enter rfl rfl rfl rfl (c := .handlerTail n) rfl (by simp) p.hst (by simp) (enterClose_spec p rfl)
   · have := i.initiateClose; iu this
   · iu i
   · have i1 : InvU cfg u can lg sp sp2 (s.emit (.write .reply)) := by iu i
     have := i1.startHeartbeats; iu this
-  · exact InvU.enter (s := s.emit (.write .reply)) (by iu i) (c := .handlerTail n) rfl (by simp) p.hst (by simp)
-      (enterClose_spec (p.same rfl rfl rfl) rfl)
+  · have i1 : InvU cfg u can lg sp sp2 (s.emit (.write .reply)) := by iu i
+    exact i1.enter rfl rfl rfl rfl (c := .handlerTail n) rfl (by simp) p.hst (by simp) (enterClose_spec (p.same rfl rfl rfl) rfl)
 
 theorem stepDisp_U {s : St} (a : InvA cfg s) (b : InvB s) (i : InvU cfg u can lg sp sp2 s)
     (hst : s.status .D = .ready) : InvU cfg u can lg sp sp2 (stepDisp cfg s) := by
   unfold stepDisp
   split
-  · exact i.finish b (by simp) (by simp)
+  · exact i.finish (by simp) (fun h => waits_of_invB b h) (by simp)
   · split
     · exact i
     · split
@@ -531,7 +548,7 @@ theorem stepMon_U {s : St} (a : InvA cfg s) (b : InvB s) (i : InvU cfg u can lg 
     · iu i
   · split
     · iu i
-    · exact i.enter (c := .monitorTail) rfl (by simp) hst (by simp)
+    · exact i.enter rfl rfl rfl rfl (c := .monitorTail) rfl (by simp) hst (by simp)
         (enterClose_spec (ClosePre.of_inv a b hst (c := .monitorTail) rfl) rfl)
 
 /-- `login()` of user task `a` resumes after its receive -/
@@ -558,18 +575,17 @@ theorem loginResume_U {s : St} {sd lo : Prop} (a : InvA cfg s) (b : InvB s) (w :
           ((({ s with vres := none, rcvBusy := false, gone := s.gone ++ [(0, true)] } : St).emit (.loginReply 0)).startHeartbeats) cfg
         exact i.accept a w tt hst hp hopen (fun h => hsp h ⟨rfl, hst, hp, hv, hopen, hct⟩) f6 (f1 _ (by simp)).2 f8 f2
           (f1 .L (by simp)).1 (f1 .M (by simp)).1
-      · refine InvU.enter (s := ({ s with vres := none, rcvBusy := false, gone := _ } : St).emit (.loginReply _)) ?_
+      · have i1 : InvU cfg x can lg sp sp2 (s.emit (.loginReply n)) := by iu i
+        exact i1.enter (s := ({ s with vres := none, rcvBusy := false, gone := _ } : St).emit (.loginReply _)) rfl rfl rfl rfl
           (c := .userTail x .refused) rfl (by intro r e; injection e with _ e; exact Or.inl e.symm) hst (by intro _; show s.prog _ ≠ _; rw [hp]; simp)
           (enterClose_spec (p.same rfl rfl rfl) rfl)
-        exact i.ext [.loginReply _] rfl (uboring_one (by simp)) rfl rfl rfl id id id (fun _ h => Or.inl h) id
-          (fun _ _ _ => by rename_i n' _ _; sorry)
     · rename_i hv
       split
       · rename_i hq
         exact i.self_refused b hal (w.qc hq) (s1 := ({ s with rcvBusy := false } : St).emit (.ret x .refused)) rfl rfl
       · rename_i hq
         have hcan : can := (i.noreply hst hp hv).resolve_left hq
-        exact InvU.enter (s := ({ s with rcvBusy := false } : St)) (by iu i)
+        exact i.enter (s := ({ s with rcvBusy := false } : St)) rfl rfl rfl rfl
           (c := .userTail x .cancelled) rfl (by intro r e; injection e with _ e; exact Or.inr ⟨e.symm, hcan⟩) hst
           (by intro _; show s.prog _ ≠ _; rw [hp]; simp) (enterClose_spec (p.same rfl rfl rfl) rfl)
   · -- another user
@@ -597,11 +613,18 @@ theorem loginResume_U {s : St} {sd lo : Prop} (a : InvA cfg s) (b : InvB s) (w :
             (by intro _ h; left; have h' : (St.startDispatching _ cfg).status .V = .cancelled := h; rw [(f1 .V (by simp)).1] at h'; exact h')
             (by show _ → (St.startDispatching _ cfg).qClosed = true; rw [f3]; exact id)
             (by intro _ _ h; have h' : (St.startDispatching _ cfg).vres = none := h; rw [f5] at h'; exact h')
-        sorry
-      · exact i1.enter (c := .userTail x .refused) rfl (hcx _) hst (by intro e; exact absurd e hne) (enterClose_spec (p.same rfl rfl rfl) rfl)
+        refine i3.finish hne ?_ (by intro e; simp at e)
+        intro h
+        have h' : (St.startDispatching _ cfg).status (.U u) = .waitT (.U x) := h
+        rw [(f1 _ (by simp)).1] at h'
+        have := waits_of_invB b (show s.status (.U u) = .waitT (.U x) from h')
+        rcases this with h'' | h''
+        · exact Or.inl h''
+        · right; show (St.startDispatching _ cfg).prog (.U u) = _; rw [(f1 _ (by simp)).2]; exact h''
+      · exact i1.enter rfl rfl rfl rfl (c := .userTail x .refused) rfl (hcx _) hst (by intro e; exact absurd e hne) (enterClose_spec (p.same rfl rfl rfl) rfl)
     · split
       · exact i.other_leave' b hxu _
-      · exact InvU.enter (s := ({ s with rcvBusy := false } : St)) (by iu i) (c := .userTail x .cancelled) rfl (hcx _) hst
+      · exact i.enter (s := ({ s with rcvBusy := false } : St)) rfl rfl rfl rfl (c := .userTail x .cancelled) rfl (hcx _) hst
           (by intro e; exact absurd e hne) (enterClose_spec (p.same rfl rfl rfl) rfl)
 
 end NasdaqModel.Sess
